@@ -461,7 +461,15 @@ class C02(ProverCheck):
 
     def gen(self, rng, i, tier):
         cfg = self.cfg(rng)
-        plan = P.generate(rng, cfg, self.weights, n_stmts=rng.choice([1, 1, 2, 3]))
+        if i % 4 == 3:
+            # a region (taken or not) that works on the operands, then operations on the same operands outside:
+            # whatever the region left behind must not weaken what follows
+            cfg["max_nesting"] = 1
+            cfg["p_bool_cond"] = 1.0
+            w = dict(self.weights, guarded=6, ite_call=6)
+            plan = P.generate(rng, cfg, w, n_stmts=rng.choice([2, 3, 4]))
+        else:
+            plan = P.generate(rng, cfg, self.weights, n_stmts=rng.choice([1, 1, 2, 3]))
         return {"plan": plan, "seed": rng.randrange(1 << 30)}
 
     def run(self, case):
@@ -536,13 +544,13 @@ class C03(ProverCheck):
             stmt = {"s": "assert", "kind": kind, "args": [A]}
             vectors = [[a] for a in (0, 1, -1, 2, (1 << bl), -(1 << bl))]
         elif kind in ("positive", "positive_n", "bits_n"):
-            n = None if kind == "positive" else rng.randrange(1, bl + 3)
+            n = None if kind == "positive" else rng.randrange(0, bl + 3)
             if kind == "bits_n":
                 stmt = {"s": "let", "e": {"call": "bits_roundtrip", "args": [A], "n": n, "t": "I"}}
             else:
                 stmt = {"s": "assert", "kind": "positive", "args": [A], "bits": n}
             w = n if n is not None else bl
-            vectors = [[a] for a in sorted({-1, 0, 1, (1 << w) - 1, 1 << w, (1 << w) + 1, (1 << bl) - 1, 1 << bl,
+            vectors = [[a] for a in sorted({-1, 0, 1, 2, (1 << w) - 1, 1 << w, (1 << w) + 1, (1 << bl) - 1, 1 << bl,
                                             (1 << bl) + 1, (1 << (w - 1)) if w > 0 else 0, -(1 << w)})]
         elif kind in ("range", "range_secret"):
             lo = rng.choice([0, 1, -2, 2])
@@ -718,7 +726,7 @@ class C16(ProverCheck):
             if rng.random() < 0.4:
                 budget[0] -= 1
                 return ["bool"]
-            m = rng.choice([2, 3, 4, 5, 7, 8, 9, 16, 17])
+            m = rng.choice([1, 2, 3, 4, 5, 7, 8, 9, 16, 17])
             budget[0] -= (m - 1).bit_length()
             return ["int", m]
         if u < 0.75:
@@ -748,15 +756,15 @@ class C16(ProverCheck):
         cfg["bitlength"] = rng.choice([2, 3, 4, 6, 8])
         bl = cfg["bitlength"]
         if i % 2 == 0:
-            n = rng.randrange(1, bl + 3)
+            n = rng.randrange(0, bl + 3)
             kind = rng.choice(["bits", "positive"])
             A = {"ref": 0, "t": "I"}
             if kind == "bits":
                 stmt = {"s": "let", "e": {"call": "bits_roundtrip", "args": [A], "n": n, "t": "I"}}
             else:
                 stmt = {"s": "assert", "kind": "positive", "args": [A], "bits": n}
-            vec = sorted({0, 1, 1 << (n - 1), (1 << n) - 1, 1 << n, (1 << n) + 1, -1, (1 << bl) - 1, 1 << bl,
-                          (1 << bl) + 1, rng.randrange(0, 1 << n)})
+            vec = sorted({0, 1, (1 << n) >> 1, (1 << n) - 1, 1 << n, (1 << n) + 1, -1, (1 << bl) - 1, 1 << bl,
+                          (1 << bl) + 1, rng.randrange(0, 1 << n), 2, 5})
             plan = {"cfg": cfg, "inputs": [{"kind": "priv", "t": "I", "v": 0}], "body": [stmt]}
             return {"mode": "width", "n": n, "plan": plan, "vectors": [[v] for v in vec],
                     "seed": rng.randrange(1 << 30)}
@@ -1945,6 +1953,10 @@ class C07(ProverCheck):
                             for cand in atk.candidates(k, rng, b)[:14]:
                                 tried += 1
                                 v, a = atk.try_lie({k: cand}, do_repair=False)
+                                if v is None or v[0] == "same":
+                                    # re-derivation confined to wires allocated under false guards (dummy wires
+                                    # of the guarded constraints included)
+                                    v, a = atk.try_lie({k: cand}, do_repair=True, allowed=set(dead_hints))
                                 if v is not None and v[0] != "same":
                                     s = dict(v[1]["desc"])
                                     s["mode"] = "dead-hint"
